@@ -1449,7 +1449,7 @@ def _v_union(env, t, step):
         fl, fr = left.fam[c], right.fam[rv[n]]
         if fl != fr and "null" not in (fl, fr):
             if {fl, fr} == {"int", "float"}:
-                raise OutOfDomain("int/float union (accepted by type rule, see finding)")
+                continue  # common type Float
             raise RefReject("TypeError", "incompatible types")
     res = RT()
     res.name = left.name
@@ -1463,6 +1463,11 @@ def _v_union(env, t, step):
     rows = [tuple(col[i] for col in lcols) for i in range(left.n)] + [
         tuple(col[j] for col in rcols) for j in range(right.n)
     ]
+    fams_out = []
+    for n, c in left.visible:
+        fl, fr = left.fam[c], right.fam[rv[n]]
+        fams_out.append("float" if {fl, fr} == {"int", "float"} else (fl if fl != "null" else fr))
+    rows = [tuple(_tofam(v, f) for v, f in zip(r, fams_out)) for r in rows]
     if step.get("distinct"):
         seen, out = set(), []
         for r in rows:
@@ -1473,9 +1478,9 @@ def _v_union(env, t, step):
         rows = out
     res.n = len(rows)
     for k, (n, c) in enumerate(left.visible):
-        res.data[c] = [r[k] for r in rows]
         fl, fr = left.fam[c], right.fam[rv[n]]
-        res.fam[c] = fl if fl != "null" else fr
+        res.fam[c] = "float" if {fl, fr} == {"int", "float"} else (fl if fl != "null" else fr)
+        res.data[c] = [_tofam(r[k], res.fam[c]) for r in rows]
         res.dtype[c] = left.dtype[c]
         res.visible.append((n, c))
         res.scope.add(c)
